@@ -318,6 +318,16 @@ Proof.
 Qed.
 Print Assumptions C18_join_spec.
 
+(* ... and the keys v0 * nv + v1 the code computes in fixed-width signed arithmetic ARE those exact keys (no wrap-around, hence
+   injective on vertex pairs below nv) whenever nv * nv < 2^(bits-1); with the regenerated width of 64 bits: nv * nv < 2^63 *)
+Theorem C18_to_meshtri_keys_exact :
+  forall (nv : nat) (f : list nat), pair_ok nv f -> (Z.of_nat (nv * nv) < 2 ^ 63)%Z ->
+    facet_key_machine gen_key_bits nv f = Z.of_nat (facet_key nv f).
+Proof.
+  intros nv f Hf Hn. rewrite gen_key_bits_is_64. exact (facet_key_machine_exact_64 nv f Hf Hn).
+Qed.
+Print Assumptions C18_to_meshtri_keys_exact.
+
 (* remove_duplicate_nodes, named boundaries (for ANY canonical form `canon` of facet tuples, e.g. _sort_entities):
    newp is the vertex relabelling of the merge; whenever the relabelled old facet f is a facet of its owner cell in the
    new mesh, the facet number found has the same canonical (merged) vertex tuple and belongs to that cell; a plain
